@@ -54,7 +54,25 @@ func runUnit(u unit) (out string) {
 func rp(rel string) string { return filepath.Join(*repo, rel) }
 
 func mustFunc(rel, name string) *ast.FuncDecl {
-	fd := findFunc(parseFile(rp(rel)), name)
+	file := parseFile(rp(rel))
+	fd := findFunc(file, name)
+	if fd == nil {
+		// a function turned into a method (or back), or the receiver type renamed: the unique declaration with that bare name
+		bare := name
+		if i := strings.LastIndex(name, "."); i >= 0 {
+			bare = name[i+1:]
+		}
+		n := 0
+		for _, d := range file.Decls {
+			if g, ok := d.(*ast.FuncDecl); ok && g.Name.Name == bare {
+				fd = g
+				n++
+			}
+		}
+		if n != 1 {
+			fd = nil
+		}
+	}
 	if fd == nil {
 		panic(bail{fmt.Sprintf("function %s not found in %s", name, rel)})
 	}
@@ -385,6 +403,11 @@ func switchTable(rel, fn, tagMarker, leanName string, keyVal, retVal func(ast.Ex
 			sw, ok := s.(*ast.SwitchStmt)
 			return ok && sw.Tag != nil && strings.Contains(src(sw.Tag), tagMarker)
 		})
+		if len(ss) == 0 {
+			if out, ok := statusMapTable(rel, fd, tagMarker, leanName, keyVal, retVal); ok {
+				return out
+			}
+		}
 		if len(ss) != 1 {
 			panic(bail{fmt.Sprintf("%s: expected one switch on %s in %s, found %d", rel, tagMarker, fn, len(ss))})
 		}
@@ -422,6 +445,73 @@ func switchTable(rel, fn, tagMarker, leanName string, keyVal, retVal func(ast.Ex
 		return fmt.Sprintf("/-- generated from %s func %s: switch %s -/\ndef %s : List (Nat × Nat) :=\n  [%s]\ndef %sDefault : Nat := %s\n",
 			rel, fn, src(sw.Tag), leanName, strings.Join(rows, ", "), leanName, def)
 	}
+}
+
+// statusMapTable: the same table when the function looks the tag up in a package-level map literal instead of switching on it:
+// `if v, ok := table[tag]; ok { return v }; return <default>`.
+func statusMapTable(rel string, fd *ast.FuncDecl, tagMarker, leanName string, keyVal, retVal func(ast.Expr) (string, bool)) (string, bool) {
+	file := parseFile(rp(rel))
+	var idx *ast.IndexExpr
+	n := 0
+	ast.Inspect(fd.Body, func(nd ast.Node) bool {
+		if ix, ok := nd.(*ast.IndexExpr); ok && strings.Contains(src(ix.Index), tagMarker) {
+			idx = ix
+			n++
+		}
+		return true
+	})
+	id, isId := (ast.Expr)(nil), false
+	if idx != nil {
+		id, isId = idx.X, true
+	}
+	name, ok := id.(*ast.Ident)
+	if n != 1 || !isId || !ok {
+		return "", false
+	}
+	var lit *ast.CompositeLit
+	for _, d := range file.Decls {
+		if gd, ok := d.(*ast.GenDecl); ok {
+			for _, sp := range gd.Specs {
+				if vs, ok := sp.(*ast.ValueSpec); ok {
+					for i, nm := range vs.Names {
+						if nm.Name == name.Name && i < len(vs.Values) {
+							lit, _ = vs.Values[i].(*ast.CompositeLit)
+						}
+					}
+				}
+			}
+		}
+	}
+	if lit == nil {
+		return "", false
+	}
+	var rows []string
+	for _, el := range lit.Elts {
+		kv, ok := el.(*ast.KeyValueExpr)
+		if !ok {
+			return "", false
+		}
+		k, ok1 := keyVal(kv.Key)
+		v, ok2 := retVal(kv.Value)
+		if !ok1 || !ok2 {
+			panic(bail{fmt.Sprintf("%s: unknown constant in table %s: %s", rel, name.Name, src(kv))})
+		}
+		rows = append(rows, "("+k+", "+v+")")
+	}
+	// the default: the last return of the function
+	var last *ast.ReturnStmt
+	if len(fd.Body.List) > 0 {
+		last, _ = fd.Body.List[len(fd.Body.List)-1].(*ast.ReturnStmt)
+	}
+	if last == nil || len(last.Results) != 1 {
+		return "", false
+	}
+	def, ok := retVal(last.Results[0])
+	if !ok {
+		return "", false
+	}
+	return fmt.Sprintf("/-- generated from %s func %s: lookup of %s in the table %s, default = the final return -/\ndef %s : List (Nat × Nat) :=\n  [%s]\ndef %sDefault : Nat := %s\n",
+		rel, fd.Name.Name, tagMarker, name.Name, leanName, strings.Join(rows, ", "), leanName, def), true
 }
 
 // gRPC status codes (google.golang.org/grpc/codes; external dependency, fixed by go.mod).
